@@ -101,6 +101,20 @@ class Callable(T):
         self.ret = ret
 
 
+class SliceT(T):
+    """slice(lo, hi) with named symbolic bounds (sizes)."""
+
+    def __init__(self, lo, hi):
+        self.lo, self.hi = lo, hi
+
+
+class ViewOf(T):
+    """1-d slice view base[lo:hi] of an earlier array parameter; lo/hi are named sizes."""
+
+    def __init__(self, path, lo, hi):
+        self.path, self.lo, self.hi = path, lo, hi
+
+
 class Shared(T):
     """Reference to another parameter path: same object (aliasing made explicit)."""
 
@@ -135,7 +149,7 @@ class Contract:
                  assumed=None, self_cls=None, fp=False, canaries=(), native=None,
                  name=None, ghosts=None, lemmas=(), notes='', bounded=None, returns=None,
                  old_exprs=(), max_paths=400, loop_modifies=None, abstract=None,
-                 config_filter=None, unroll=0, defs=None, lets=None):
+                 config_filter=None, unroll=0, defs=None, lets=None, sampler=None):
         self.target = target
         self.props = list(props)
         self.params = params
@@ -164,6 +178,7 @@ class Contract:
         self.unroll = unroll
         self.defs = dict(defs or {})
         self.lets = dict(lets or {})
+        self.sampler = sampler
 
 
 REGISTRY = {}
